@@ -23,10 +23,30 @@ def mc_runs(tier):
 
 
 def judge(trace_path, name):
-    r = run_tlc(name, os.path.join(SPEC, "trace"), "TraceCodec", "TraceCodec.cfg", env={"TRACE_FILE": trace_path}, timeout=3000)
-    if not r["ok"]:
-        tlc_failed(r, "TraceCodec")
-    return verdict_lines(r["out"], ("OK", "REJECT")), r
+    """TraceCodec over the record file, in batches of at most 40 MB (TLC holds the whole JSON in memory)"""
+    lines_all = []; gen = 0; wall = 0.0
+    batch = []; size = 0; k = 0
+    def flush():
+        nonlocal batch, size, k, gen, wall
+        if not batch:
+            return
+        k += 1
+        bp = "%s.b%d" % (trace_path, k)
+        with open(bp, "w") as f:
+            f.writelines(batch)
+        r = run_tlc("%s-b%d" % (name, k), os.path.join(SPEC, "trace"), "TraceCodec", "TraceCodec.cfg", env={"TRACE_FILE": bp}, timeout=3000, xmx="12g")
+        os.remove(bp)
+        if not r["ok"]:
+            tlc_failed(r, "TraceCodec")
+        lines_all.extend(verdict_lines(r["out"], ("OK", "REJECT"))); gen += r["generated"]; wall += r["wall"]
+        batch = []; size = 0
+    with open(trace_path) as f:
+        for line in f:
+            if size + len(line) > 40_000_000 and batch:
+                flush()
+            batch.append(line); size += len(line)
+    flush()
+    return lines_all, {"generated": gen, "wall": wall}
 
 
 def main(pid, tier, seed, replay=None):
